@@ -1059,6 +1059,9 @@ class Declarator(Node):
         elif self.name:
             decl.append(" ")
             decl.append(self.name)
+        if decl[-2:] == [" (", ")"]:
+            # 'int (value)' without its name is 'int', not 'int ()'.
+            del decl[-2:]
 
     def __str__(self):
         out = ""
